@@ -11,6 +11,11 @@ CONC = {"C03", "C04", "C16"}
 
 
 def dispatch(pid, tier, seed, replay):
+    if replay and json.load(open(replay)).get("driver") == "cfg-suite" and pid != "C20":
+        # a replay of a job against the memcrsd binary (counting hammer, memory-limit probe, connection scenarios)
+        rc = props_more.run_srv(pid, tier, seed, replay)
+        log("RESULT property=%s tier=%s exit=%d" % (pid, tier, rc))
+        return rc
     if pid in ("C14", "C15", "C05", "C01", "C08", "C19") and replay and json.load(open(replay)).get("spec") == "MemcLin":
         rc = props_more.run_conc(pid, tier, seed, replay)
     elif pid in SEQ:
